@@ -1045,7 +1045,7 @@ def gen_bare(rng, tier):
 # ------------------------------------------------------------------------------------------ the property
 class C09(Prop):
     id = "C09"
-    lean_modules = ["VivModel.Props.C09"]
+    lean_modules = ["VivModel.Props.C09", "VivModel.Props.C09Src"]
     build_targets = ["VivModel.Model.Topo", "VivModel.Model.Proto"]
     driver = "C09"
     technique = ("Lean 4 proof (certified order checker, soundness + completeness of the model's Kahn sort, cycle <-> no valid "
